@@ -363,6 +363,11 @@ pub fn run(args: &Args, rep: &Arc<Report>) {
             rep.set_rule("replay: frame-number windows re-run");
             return;
         }
+        if c.get("stream_with_metadata").is_some() {
+            run_metadata_variants(rep);
+            rep.set_rule("replay: streams with added metadata blocks re-run");
+            return;
+        }
     }
     let groups = if args.replay.is_some() { vec![] } else { vec![ustream::gh()] };
     let d = if thorough { 3 } else { 2 };
